@@ -17,6 +17,7 @@ import (
 	"os"
 	"sort"
 	"strings"
+	"sync/atomic"
 	"time"
 
 	"github.com/ipfs/boxo/blockservice"
@@ -78,14 +79,17 @@ type node struct {
 	mt   mtime
 	// stat: Chmod/Touch was applied to this file at some point.
 	stat bool
-	// inlineLeaf: under a CIDv1 root the file was a single raw leaf (non-empty,
-	// one chunk, never stat-ed) when Chmod/Touch was applied; MFS then rewrites
-	// it as a dag-pb leaf with inline data. Cleared when the file is emptied.
+	// inlineLeaf: under a CIDv1 root the file was non-empty and had neither mode
+	// nor mtime when Chmod/Touch was applied. Such a file may be a single
+	// RawNode (DagModifier collapses a metadata-free single-leaf file to its raw
+	// leaf on any descriptor close, even a read-only one), and MFS rewrites a
+	// RawNode as a dag-pb leaf with inline data when it gets metadata.
+	// Conservative (a multi-chunk file is flagged too). Cleared when emptied.
 	inlineLeaf bool
-	// rawLeaf: under a CIDv1 root the last content write happened while the
-	// file had no mode/mtime and fits one chunk: DagModifier collapses it to a
-	// single RawNode.
-	rawLeaf bool
+	// mixed: an fd session grew the file while it was such an inline-data leaf
+	// with bytes in place: DagModifier has produced a node with inline data and
+	// links (the listed finding); what the file shows from then on is undefined.
+	mixed bool
 }
 
 func newDir(name string) *node { return &node{name: name, dir: true, kids: map[string]*node{}} }
@@ -254,17 +258,14 @@ type world struct {
 	// avoidExt: never grow (write or truncate past the end of) a non-empty file
 	// that MFS rewrote as an inline-data dag-pb leaf (trigger of the listed DagModifier finding)
 	avoidExt bool
-	pubs     int
+	pubs     atomic.Int64
 
 	// measured features for the non-triviality rule and the evidence
 	okMvSpecial, okWrite, failedOps, dagFiles, dagShards, fullChecks, dagChecks int
-	// extendedStat: the fd session just executed grew a non-empty file that had
-	// Chmod/Touch applied under a CIDv1 root (input shape of the listed DagModifier finding)
-	extendedStat bool
-	staleShape   bool   // the session just closed has the input shape of the listed stale-handle finding
-	preClose     []byte // what the file showed before that Close
-	fdOpen       bool   // a write descriptor is open: only operations that do not open files run
-	longSessions int
+	staleShape                                                                  bool   // the session just closed has the input shape of the listed stale-handle finding
+	preClose                                                                    []byte // what the file showed before that Close
+	fdOpen                                                                      bool   // a write descriptor is open: only operations that do not open files run
+	longSessions                                                                int
 	// ancFlush: operations run while a descriptor is open may flush (and thereby
 	// drop the cache of) a directory on the open file's path (stratum longfd only)
 	ancFlush bool
@@ -299,7 +300,7 @@ func (w *world) rootOpts() []mfs.Option {
 	return o
 }
 
-func (w *world) pub(ctx context.Context, c cid.Cid) error { w.pubs++; return nil }
+func (w *world) pub(ctx context.Context, c cid.Cid) error { w.pubs.Add(1); return nil }
 
 func (w *world) readService() ipld.DAGService {
 	return dag.NewDAGService(blockservice.New(w.bs, offline.Exchange(w.bs)))
@@ -340,14 +341,14 @@ func (w *world) overfullDir(n *node) bool {
 	return false
 }
 
+// markStat is called before the model applies a Chmod/Touch.
 func (w *world) markStat(n *node) {
 	if n.dir {
 		return
 	}
-	if n.rawLeaf && len(n.data) > 0 {
+	if w.cfg.cidV1 && n.mode == 0 && n.mt.kind == mtUnset && len(n.data) > 0 {
 		n.inlineLeaf = true
 	}
-	n.rawLeaf = false
 	n.stat = true
 }
 
@@ -360,12 +361,12 @@ func main() { vlib.Run("C19", run) }
 
 func run(c *vlib.Ctx) {
 	c.Rule("histories of 6-30 ops {Mkdir(+-parents,+-flush,+-mode/mtime,+-trailing slash), create(PutNode empty), cp-file(PutNode of an existing file node), fd session(truncate/seek-start/write/write, +-fd.Flush, +-Sync flag, 1/4 of them with other operations run while the descriptor is open), Mv(file|dir -> new name | existing file | existing dir +-trailing slash | itself | random), Unlink(+-parent flush), Chmod, Touch, FlushPath(any path), Root.Flush, FlushMemFree, reload(NewRoot from the flushed root node through a fresh DAG service), Lookup, ListNames, fd read} over names {a,b,x,f} depth<=3 (stratum wide: n0..n9 depth<=2) x roots {HAMTShardingSize 0/80/120/200 (shards from 3-4 entries), fanout 8/16/default, CIDv0/v1(raw leaves), default/size-8/size-32 chunker} x observation density {0,30,100}% full-tree comparisons. Directory moves into their own subtree are never generated. Strata clean/wide avoid the triggers of all listed findings; each finding has its own stratum that allows its trigger and nothing else new: trigger (Mv between distinct equally named directories with the same leaf; /a/x,/b/x,/x/x pre-created), maxlinks (MaxLinks 2/3/5), rawstat (CIDv1: Chmod/Touch on a raw-leaf file, later grown), longfd (a directory on the open file's path is flushed while the descriptor is open). distinct = FNV of config + op list; non-trivial = the history had a successful Mv that was a directory move or replaced a file or went into an existing directory, a successful fd write session, an expected failure after which the whole tree was verified unchanged, and a DAG read-back after a flush that compared at least one file's bytes")
-	c.Cases("clean", c.N(2400, 24000), func(k *vlib.Case) { history(k, "clean") })
-	c.Cases("wide", c.N(500, 5000), func(k *vlib.Case) { history(k, "wide") })
-	c.Cases("maxlinks", c.N(400, 3000), func(k *vlib.Case) { history(k, "maxlinks") })
-	c.Cases("rawstat", c.N(400, 3000), func(k *vlib.Case) { history(k, "rawstat") })
-	c.Cases("trigger", c.N(400, 3000), func(k *vlib.Case) { history(k, "trigger") })
-	c.Cases("longfd", c.N(400, 3000), func(k *vlib.Case) { history(k, "longfd") })
+	c.Cases("clean", c.N(2400, 16000), func(k *vlib.Case) { history(k, "clean") })
+	c.Cases("wide", c.N(500, 3000), func(k *vlib.Case) { history(k, "wide") })
+	c.Cases("maxlinks", c.N(400, 2000), func(k *vlib.Case) { history(k, "maxlinks") })
+	c.Cases("rawstat", c.N(400, 2000), func(k *vlib.Case) { history(k, "rawstat") })
+	c.Cases("trigger", c.N(400, 2000), func(k *vlib.Case) { history(k, "trigger") })
+	c.Cases("longfd", c.N(400, 2000), func(k *vlib.Case) { history(k, "longfd") })
 }
 
 func history(k *vlib.Case, stratum string) {
@@ -436,7 +437,7 @@ func history(k *vlib.Case, stratum string) {
 	c.Count("dag_files_compared", int64(w.dagFiles))
 	c.Count("dag_hamt_dirs_seen", int64(w.dagShards))
 	c.Count("expected_failures_verified_unchanged", int64(w.failedOps))
-	c.Count("republish_calls", int64(w.pubs))
+	c.Count("republish_calls", w.pubs.Load())
 	c.Count("ops_run_while_fd_open", int64(w.longSessions))
 }
 
@@ -701,7 +702,7 @@ func (w *world) expectEntry(op, clause, p string, want string, features string) 
 		kind = rName[classify(err)]
 	}
 	if kind != want {
-		cls := op + "/" + clause
+		cls := op + "/" + strings.ReplaceAll(clause, " ", "-")
 		if features != "" {
 			cls += "/" + features
 		}
@@ -1061,6 +1062,9 @@ func (w *world) opWrite(p string) {
 				}
 				// flushed content is what the tree shows from now on
 				fn.data = append([]byte(nil), data...)
+				if wasInline && grew {
+					fn.mixed = true
+				}
 				if fn.mt.kind != mtUnset {
 					fn.mt = mtime{kind: mtAnySet}
 				}
@@ -1089,18 +1093,16 @@ func (w *world) opWrite(p string) {
 	}
 	w.okWrite++
 	// the written bytes must be what the file now shows
-	w.extendedStat = wasInline && grew && oldLen > 0
+	if wasInline && grew && oldLen > 0 {
+		fn.mixed = true
+	}
 	if len(data) == 0 || inline == 0 {
 		fn.inlineLeaf = false
 	}
-	// (single-leaf-ness depends on write buffering and on the 4096-byte zero
-	// chunks of sparse extension; any non-empty metadata-free file is treated as
-	// a possible raw leaf: conservative for the avoidance rule)
-	fn.rawLeaf = w.cfg.cidV1 && !fn.inlineLeaf && fn.mode == 0 && fn.mt.kind == mtUnset && len(data) > 0
 	w.staleShape = interAt >= 0 && w.cleanedDepth >= 0 && w.freshLookup
 	w.preClose = w.atFresh
 	w.checkFileVisible(p, fn, "after-write")
-	w.extendedStat, w.staleShape, w.preClose = false, false, nil
+	w.staleShape, w.preClose = false, nil
 	if w.k.Failed() {
 		return
 	}
@@ -1463,8 +1465,8 @@ func (w *world) opChmod(p string, mode os.FileMode) {
 		w.afterFailure("chmod")
 		return
 	}
-	n.mode = mode
 	w.markStat(n)
+	n.mode = mode
 	w.afterSuccess("chmod")
 }
 
@@ -1487,12 +1489,12 @@ func (w *world) opTouch(p string, t time.Time) {
 		w.afterFailure("touch")
 		return
 	}
+	w.markStat(n)
 	if t.IsZero() {
 		n.mt = mtime{}
 	} else {
 		n.mt = mtime{mtExact, t}
 	}
-	w.markStat(n)
 	w.afterSuccess("touch")
 }
 
@@ -1714,7 +1716,7 @@ func (w *world) checkFileVisible(p string, n *node, why string) bool {
 		w.fail("tree/file-read-error@"+why, "file can be read", "no error", rerr+" at "+p+" (last op "+w.lastOp+")")
 		return false
 	}
-	if !bytes.Equal(got, n.data) && w.extendedStat {
+	if !bytes.Equal(got, n.data) && n.mixed {
 		w.fail("write/grow-inline-pb-leaf/bytes", "file bytes == model", fmt.Sprintf("%s: %d bytes %x", p, len(n.data), n.data), fmt.Sprintf("%d bytes %x (size %d)", len(got), got, size))
 		return false
 	}
@@ -1726,7 +1728,7 @@ func (w *world) checkFileVisible(p string, n *node, why string) bool {
 		w.fail("tree/file-bytes@"+why, "file bytes == model", fmt.Sprintf("%s: %d bytes %x", p, len(n.data), n.data), fmt.Sprintf("%d bytes %x (last op %s)", len(got), got, w.lastOp))
 		good = false
 	}
-	if good && w.extendedStat && size > int64(len(n.data)) {
+	if good && n.mixed && size != int64(len(n.data)) {
 		w.fail("write/grow-inline-pb-leaf/size", "File.Size == model length", fmt.Sprint(len(n.data)), fmt.Sprintf("%d at %s (the bytes read are right)", size, p))
 		return false
 	}
@@ -1921,6 +1923,14 @@ func (w *world) dagRec(rds ipld.DAGService, nd ipld.Node, n *node, p, where stri
 		return
 	}
 	w.dagFiles++
+	if n.mixed && (!bytes.Equal(got, n.data) || dr.Size() != uint64(len(n.data))) {
+		cls := "write/grow-inline-pb-leaf/bytes"
+		if bytes.Equal(got, n.data) {
+			cls = "write/grow-inline-pb-leaf/size"
+		}
+		w.fail(cls, "flushed DAG describes the model: file bytes and size", fmt.Sprintf("%d bytes %x", len(n.data), n.data), fmt.Sprintf("%d bytes %x (size %d) at %s", len(got), got, dr.Size(), lp))
+		return
+	}
 	if !bytes.Equal(got, n.data) {
 		fail("file-bytes", fmt.Sprintf("%d bytes %x", len(n.data), n.data), fmt.Sprintf("%d bytes %x", len(got), got))
 	}
